@@ -245,7 +245,28 @@ def check_program(prog, tnames, acc=None):
     shapes = [tuple(s) for _, s in prog["inputs"]]
     dts = [np.dtype(progen.NP_DT[dt]) for dt, _ in prog["inputs"]]
     ops = sorted(set(progen.ops_of(prog)))
-    return check_fn(digest(prog["stmts"]), fn, shapes, dts, tnames, acc, {"layer": "program", "ops": ops[:6]}, {"kind": "program", "prog": prog})
+    vs = check_fn(digest(prog["stmts"]), fn, shapes, dts, tnames, acc, {"layer": "program", "ops": ops[:6]}, {"kind": "program", "prog": prog})
+    out = []
+    for v in vs:
+        # localise: the first statement whose value, made the only output, already fails under this transformation
+        tname = (v["case"].get("T") or [None])[0]
+        label, sub = None, prog
+        if tname and len(prog["stmts"]) >= 1:
+            for st_ in prog["stmts"]:
+                if isinstance(st_["o"], list):
+                    continue
+                cand = progen.prune(dict(prog, outputs=[st_["o"]]))
+                try:
+                    r = check_fn("blame", progen.build(cand), shapes, dts, [tname], None, {"layer": "program"}, {"kind": "program", "prog": cand})
+                except Exception:
+                    r = []
+                if r and r[0]["sig"].get("kind") == v["sig"].get("kind"):
+                    label, sub = st_["op"] + (":" + st_["kw"]["f"] if isinstance(st_.get("kw", {}).get("f"), str) else ""), cand
+                    break
+        v["sig"]["op"] = label or "?"
+        v["case"] = dict(v["case"], prog=sub)
+        out.append(v)
+    return out
 
 
 ALL_T = ["jit", "jit_jit", "inner_jit", "checkpoint", "vmap_lead", "vmap_first_only", "vmap_trailing", "vmap_out_last", "grad", "jvp", "vjp", "custom_jvp_grad", "custom_vjp_grad",
